@@ -62,6 +62,10 @@ def catches(handler_name, exc):
     return h in HIER.get(e, [])
 
 
+class _Handlers(list):
+    module = None
+
+
 class Raise(object):
     __slots__ = ('exc', 'func', 'node', 'why', 'via')
 
@@ -238,6 +242,31 @@ class ExcFlow(object):
         elif d:
             head = d.split('.')[0]
             target = mod.imports.get(head, '')
+        if nm == 'len' and isinstance(call.func, ast.Name) and \
+                len(call.args) == 1:
+            a = call.args[0]
+            t = unparse(a)
+            docval = False
+            if isinstance(a, ast.Name):
+                if a.id == 'doc' and 'doc' in f.params():
+                    docval = True
+                for d in walk_no_defs(f.node):
+                    if isinstance(d, ast.Assign) and any(
+                            isinstance(x, ast.Name) and x.id == a.id
+                            for x in d.targets) and unparse(d.value).split(
+                            '.')[-1] in ('in_document', 'in_body_doc',
+                                         'in_header_doc'):
+                        docval = True
+            if docval:
+                # a parsed document value may be a scalar (42, true, null)
+                from .flow import guards_at, flatten_guards
+                for e, pol in flatten_guards(guards_at(call, stop=f.node)):
+                    if pol and isinstance(e, ast.Call) and call_name(e) == \
+                            'isinstance' and e.args and unparse(
+                            e.args[0]) == t:
+                        return []
+                return ['TypeError']
+            return []
         if nm in ('int', 'float') and isinstance(call.func, ast.Name) and \
                 len(call.args) == 1:
             a = call.args[0]
@@ -335,7 +364,19 @@ class ExcFlow(object):
             return ['ValueError']      # text domain: malformed hex string
         if nm in ('b64decode', 'urlsafe_b64decode', 'standard_b64decode',
                   'unhexlify', 'a2b_hex', 'a2b_base64'):
-            return ['binascii.Error']  # text domain
+            # text domain: bad alphabet/padding -> binascii.Error; a str
+            # argument with non-ASCII characters -> plain ValueError
+            if call.args and self._bytes_typed(f, call.args[0]):
+                return ['binascii.Error']
+            return ['binascii.Error', 'ValueError']
+        if nm == 'encode' and isinstance(call.func, ast.Attribute) and \
+                isinstance(call.func.value, ast.Name) and \
+                call.args and isinstance(call.args[0], ast.Constant) and \
+                str(call.args[0].value).lower().replace('-', '') in (
+                    'ascii', 'latin1', 'iso88591', 'usascii') and not any(
+                    k.arg == 'errors' for k in call.keywords) and \
+                len(call.args) == 1:
+            return ['UnicodeEncodeError']
         if nm == 'decode' and isinstance(call.func, ast.Attribute) and \
                 not isinstance(call.func.value, ast.Constant):
             recv = call.func.value
@@ -508,8 +549,14 @@ class ExcFlow(object):
                 full = []
                 t = h.type
                 elts = t.elts if isinstance(t, ast.Tuple) else [t]
+                mod = getattr(handlers, 'module', None)
                 for e in elts:
-                    full.append(dotted(e) or unparse(e))
+                    nm = dotted(e) or unparse(e)
+                    # an import alias (from binascii import Error as X)
+                    if mod is not None and isinstance(e, ast.Name):
+                        nm = {'binascii.Error': 'binascii.Error'}.get(
+                            mod.imports.get(e.id, ''), nm)
+                    full.append(nm)
                 for n in full:
                     if catches(n, exc):
                         return True
@@ -528,7 +575,9 @@ class ExcFlow(object):
                           ast.ClassDef)):
             return
         if isinstance(s, ast.Try):
-            self._block(f, s.body, stack + [s.handlers], out, depth, loopvars)
+            hl = _Handlers(s.handlers)
+            hl.module = f.module
+            self._block(f, s.body, stack + [hl], out, depth, loopvars)
             # what the try body can raise at all (per the table), to skip
             # handlers that are unreachable in this domain
             inner = []
@@ -582,6 +631,49 @@ class ExcFlow(object):
             self._block(f, s.body, stack, out, depth, loopvars)
             return
         self._exprs(f, s, stack, out, depth, loopvars)
+        self._unpack(f, s, stack, out)
+
+    def _unpack(self, f, s, stack, out):
+        """a, b = text.split(sep[, maxsplit]): the number of pieces is
+        decided by the request unless maxsplit pins it and the separator is
+        known to be present."""
+        if not (isinstance(s, ast.Assign) and len(s.targets) == 1 and
+                isinstance(s.targets[0], (ast.Tuple, ast.List)) and
+                isinstance(s.value, ast.Call) and isinstance(
+                s.value.func, ast.Attribute) and s.value.func.attr in (
+                'split', 'rsplit')):
+            return
+        call = s.value
+        if isinstance(call.func.value, ast.Constant):
+            return
+        n = len(s.targets[0].elts)
+        if any(isinstance(e, ast.Starred) for e in s.targets[0].elts):
+            return
+        ms = None
+        if len(call.args) >= 2:
+            ms = call.args[1]
+        for k in call.keywords:
+            if k.arg == 'maxsplit':
+                ms = k.value
+        pinned = isinstance(ms, ast.Constant) and ms.value == n - 1
+        from .flow import guards_at, flatten_guards
+        present = False
+        recv = unparse(call.func.value)
+        sep = unparse(call.args[0]) if call.args else None
+        for e, pol in flatten_guards(guards_at(s, stop=f.node)):
+            if pol and isinstance(e, ast.Compare) and len(e.ops) == 1 and \
+                    isinstance(e.ops[0], ast.In) and unparse(
+                    e.comparators[0]) == recv and (
+                    sep is None or unparse(e.left).strip('bu') ==
+                    sep.strip('bu')):
+                present = True
+        if pinned and present:
+            return
+        self.stats['primitive_sites'] += 1
+        why = '%s = %s' % (unparse(s.targets[0]), unparse(call)[:40])
+        self._emit(Raise('ValueError', f, s, why + (
+            ' (too many pieces: no maxsplit=%d)' % (n - 1) if not pinned
+            else ' (separator may be absent)')), stack, out)
 
     def _exprs(self, f, node, stack, out, depth, loopvars):
         # comprehension variables ranging over literal string tuples
